@@ -153,6 +153,16 @@ class C04(Property):
         if f == "connect":
             k = rng.choice([1, 2, 2, 3, 3, 4, 6])
             ls = [self.rand_loc(rng, n, circular, area=rng.random() < 0.6) for _ in range(k)]
+            if circular and n >= 20 and rng.random() < 0.2:
+                # ties in the sort key: locations sharing their start (different ends), and one far beyond
+                lo = rng.randrange(0, n // 4)
+                e1 = lo + rng.randrange(1, n // 8 + 1)
+                e2 = e1 + rng.randrange(1, n // 4 + 1)
+                far = min(n - 2, e1 + n // 2 + rng.choice([0, 1, 2, n // 10]))
+                ls = [simple(lo, e2, 1), simple(lo, e1, 1), simple(far, min(n, far + rng.randrange(1, 4)), 1)]
+                if rng.random() < 0.4:
+                    ls.append(self.rand_loc(rng, n, False))
+                rng.shuffle(ls)
             return {"f": f, "ls": ls, "wrap": w}
         if f == "extend":
             d = rng.choice([0, 1, 2, n // 4, n // 2, n // 2 + 1, n - 1, n, n + 3, rng.randrange(0, n + 1)])
@@ -261,6 +271,11 @@ class C04(Property):
                 try:
                     rev = loc.connect_locations([common.make_location(x) for x in reversed(case["ls"])], case["wrap"] or None)
                     out["rev"] = common.location_json(rev)
+                    # further argument orders (all of them for up to three inputs, rotations beyond)
+                    idx = list(range(len(case["ls"])))
+                    orders = list(itertools.permutations(idx)) if len(idx) <= 3 else [idx[i:] + idx[:i] for i in range(1, len(idx))]
+                    out["perms"] = [common.location_json(loc.connect_locations(
+                        [common.make_location(case["ls"][i]) for i in order], case["wrap"] or None)) for order in orders]
                     out["twice"] = common.location_json(loc.connect_locations([res], case["wrap"] or None))
                 except Exception as exc:  # pylint: disable=broad-except
                     out["meta_err"] = err_kind(exc)
@@ -367,7 +382,8 @@ class C04(Property):
                         spec_ok = spec_ok and oi["len"] == drv["shortest"]
                         tags.append("shortest-applies")
                 nontrivial = len(case["ls"]) > 1
-                if spec_ok and ("meta_err" in obs or not self._same_bases(obs["rev"], v) or not self._same_bases(obs["twice"], v)):
+                if spec_ok and ("meta_err" in obs or not self._same_bases(obs["rev"], v) or not self._same_bases(obs["twice"], v)
+                                or not all(self._same_bases(p, v) for p in obs.get("perms", []))):
                     spec_ok = False
                     detail = f"connect depends on argument order or is not idempotent: {obs}"
             elif f == "extend":
